@@ -565,16 +565,73 @@ func (c *RuneConverter) From(obj interface{}) (Object, error) {
 	return NewString(string([]rune{obj.(rune)})), nil
 }
 
+// intFits reports an error if the integer is not a value of the Go integer
+// type of the given kind: a number handed to Go arrives as it was written or
+// not at all.
+func intFits(v int64, kind reflect.Kind) error {
+	var min, max int64
+	switch kind {
+	case reflect.Int8:
+		min, max = math.MinInt8, math.MaxInt8
+	case reflect.Int16:
+		min, max = math.MinInt16, math.MaxInt16
+	case reflect.Int32:
+		min, max = math.MinInt32, math.MaxInt32
+	case reflect.Uint8:
+		min, max = 0, math.MaxUint8
+	case reflect.Uint16:
+		min, max = 0, math.MaxUint16
+	case reflect.Uint32:
+		min, max = 0, math.MaxUint32
+	case reflect.Uint, reflect.Uint64:
+		min, max = 0, math.MaxInt64
+	default:
+		return nil
+	}
+	if v < min || v > max {
+		return errz.TypeErrorf("type error: %d is out of range for %s", v, kind)
+	}
+	return nil
+}
+
+// floatFits reports an error if the float is not an integer in the range of
+// the Go integer type of the given kind.
+func floatFits(f float64, kind reflect.Kind) error {
+	if f != math.Trunc(f) || math.IsInf(f, 0) || math.IsNaN(f) {
+		return errz.TypeErrorf("type error: %v is not an integer (%s expected)", f, kind)
+	}
+	switch kind {
+	case reflect.Uint, reflect.Uint64:
+		if f < 0 || f >= 18446744073709551616.0 {
+			return errz.TypeErrorf("type error: %v is out of range for %s", f, kind)
+		}
+		return nil
+	}
+	if f < -9223372036854775808.0 || f >= 9223372036854775808.0 {
+		return errz.TypeErrorf("type error: %v is out of range for %s", f, kind)
+	}
+	return intFits(int64(f), kind)
+}
+
 // IntConverter converts between int and *Int.
 type IntConverter struct{}
 
 func (c *IntConverter) To(obj Object) (interface{}, error) {
 	switch obj := obj.(type) {
 	case *Byte:
+		if err := intFits(int64(obj.value), reflect.Int); err != nil {
+			return nil, err
+		}
 		return int(obj.value), nil
 	case *Int:
+		if err := intFits(obj.value, reflect.Int); err != nil {
+			return nil, err
+		}
 		return int(obj.value), nil
 	case *Float:
+		if err := floatFits(obj.value, reflect.Int); err != nil {
+			return nil, err
+		}
 		return int(obj.value), nil
 	default:
 		return nil, errz.TypeErrorf("type error: expected int (%s given)", obj.Type())
@@ -591,10 +648,19 @@ type Int8Converter struct{}
 func (c *Int8Converter) To(obj Object) (interface{}, error) {
 	switch obj := obj.(type) {
 	case *Byte:
+		if err := intFits(int64(obj.value), reflect.Int8); err != nil {
+			return nil, err
+		}
 		return int8(obj.value), nil
 	case *Int:
+		if err := intFits(obj.value, reflect.Int8); err != nil {
+			return nil, err
+		}
 		return int8(obj.value), nil
 	case *Float:
+		if err := floatFits(obj.value, reflect.Int8); err != nil {
+			return nil, err
+		}
 		return int8(obj.value), nil
 	default:
 		return nil, errz.TypeErrorf("type error: expected int (%s given)", obj.Type())
@@ -611,10 +677,19 @@ type Int16Converter struct{}
 func (c *Int16Converter) To(obj Object) (interface{}, error) {
 	switch obj := obj.(type) {
 	case *Byte:
+		if err := intFits(int64(obj.value), reflect.Int16); err != nil {
+			return nil, err
+		}
 		return int16(obj.value), nil
 	case *Int:
+		if err := intFits(obj.value, reflect.Int16); err != nil {
+			return nil, err
+		}
 		return int16(obj.value), nil
 	case *Float:
+		if err := floatFits(obj.value, reflect.Int16); err != nil {
+			return nil, err
+		}
 		return int16(obj.value), nil
 	default:
 		return nil, errz.TypeErrorf("type error: expected int (%s given)", obj.Type())
@@ -631,10 +706,19 @@ type Int32Converter struct{}
 func (c *Int32Converter) To(obj Object) (interface{}, error) {
 	switch obj := obj.(type) {
 	case *Byte:
+		if err := intFits(int64(obj.value), reflect.Int32); err != nil {
+			return nil, err
+		}
 		return int32(obj.value), nil
 	case *Int:
+		if err := intFits(obj.value, reflect.Int32); err != nil {
+			return nil, err
+		}
 		return int32(obj.value), nil
 	case *Float:
+		if err := floatFits(obj.value, reflect.Int32); err != nil {
+			return nil, err
+		}
 		return int32(obj.value), nil
 	default:
 		return nil, errz.TypeErrorf("type error: expected int (%s given)", obj.Type())
@@ -651,10 +735,19 @@ type Int64Converter struct{}
 func (c *Int64Converter) To(obj Object) (interface{}, error) {
 	switch obj := obj.(type) {
 	case *Byte:
+		if err := intFits(int64(obj.value), reflect.Int64); err != nil {
+			return nil, err
+		}
 		return int64(obj.value), nil
 	case *Int:
+		if err := intFits(obj.value, reflect.Int64); err != nil {
+			return nil, err
+		}
 		return int64(obj.value), nil
 	case *Float:
+		if err := floatFits(obj.value, reflect.Int64); err != nil {
+			return nil, err
+		}
 		return int64(obj.value), nil
 	default:
 		return nil, errz.TypeErrorf("type error: expected int (%s given)", obj.Type())
@@ -671,10 +764,19 @@ type UintConverter struct{}
 func (c *UintConverter) To(obj Object) (interface{}, error) {
 	switch obj := obj.(type) {
 	case *Byte:
+		if err := intFits(int64(obj.value), reflect.Uint); err != nil {
+			return nil, err
+		}
 		return uint(obj.value), nil
 	case *Int:
+		if err := intFits(obj.value, reflect.Uint); err != nil {
+			return nil, err
+		}
 		return uint(obj.value), nil
 	case *Float:
+		if err := floatFits(obj.value, reflect.Uint); err != nil {
+			return nil, err
+		}
 		return uint(obj.value), nil
 	default:
 		return nil, errz.TypeErrorf("type error: expected int (%s given)", obj.Type())
@@ -695,10 +797,19 @@ type Uint8Converter struct{}
 func (c *Uint8Converter) To(obj Object) (interface{}, error) {
 	switch obj := obj.(type) {
 	case *Byte:
+		if err := intFits(int64(obj.value), reflect.Uint8); err != nil {
+			return nil, err
+		}
 		return uint8(obj.value), nil
 	case *Int:
+		if err := intFits(obj.value, reflect.Uint8); err != nil {
+			return nil, err
+		}
 		return uint8(obj.value), nil
 	case *Float:
+		if err := floatFits(obj.value, reflect.Uint8); err != nil {
+			return nil, err
+		}
 		return uint8(obj.value), nil
 	default:
 		return nil, errz.TypeErrorf("type error: expected int (%s given)", obj.Type())
@@ -715,10 +826,19 @@ type Uint16Converter struct{}
 func (c *Uint16Converter) To(obj Object) (interface{}, error) {
 	switch obj := obj.(type) {
 	case *Byte:
+		if err := intFits(int64(obj.value), reflect.Uint16); err != nil {
+			return nil, err
+		}
 		return uint16(obj.value), nil
 	case *Int:
+		if err := intFits(obj.value, reflect.Uint16); err != nil {
+			return nil, err
+		}
 		return uint16(obj.value), nil
 	case *Float:
+		if err := floatFits(obj.value, reflect.Uint16); err != nil {
+			return nil, err
+		}
 		return uint16(obj.value), nil
 	default:
 		return nil, errz.TypeErrorf("type error: expected int (%s given)", obj.Type())
@@ -735,10 +855,19 @@ type Uint32Converter struct{}
 func (c *Uint32Converter) To(obj Object) (interface{}, error) {
 	switch obj := obj.(type) {
 	case *Byte:
+		if err := intFits(int64(obj.value), reflect.Uint32); err != nil {
+			return nil, err
+		}
 		return uint32(obj.value), nil
 	case *Int:
+		if err := intFits(obj.value, reflect.Uint32); err != nil {
+			return nil, err
+		}
 		return uint32(obj.value), nil
 	case *Float:
+		if err := floatFits(obj.value, reflect.Uint32); err != nil {
+			return nil, err
+		}
 		return uint32(obj.value), nil
 	default:
 		return nil, errz.TypeErrorf("type error: expected int (%s given)", obj.Type())
@@ -755,10 +884,19 @@ type Uint64Converter struct{}
 func (c *Uint64Converter) To(obj Object) (interface{}, error) {
 	switch obj := obj.(type) {
 	case *Byte:
+		if err := intFits(int64(obj.value), reflect.Uint64); err != nil {
+			return nil, err
+		}
 		return uint64(obj.value), nil
 	case *Int:
+		if err := intFits(obj.value, reflect.Uint64); err != nil {
+			return nil, err
+		}
 		return uint64(obj.value), nil
 	case *Float:
+		if err := floatFits(obj.value, reflect.Uint64); err != nil {
+			return nil, err
+		}
 		return uint64(obj.value), nil
 	default:
 		return nil, errz.TypeErrorf("type error: expected int (%s given)", obj.Type())
